@@ -24,6 +24,7 @@ import (
 type c03N struct {
 	name   string
 	typ    int // 0 file, 1 dir, 2 symlink, 3 fifo, 4 char device, 5 hard link (target = source)
+	ltyp   int // typ 5: type of the link source (0 file, 3 fifo, 4 char device)
 	perm   uint32
 	uid    uint32
 	gid    uint32
@@ -133,7 +134,7 @@ func c03AddHardlinks(r *Rng, root *[]*c03N) {
 	var flat []c03Flat
 	c03Walk(*root, "", &flat)
 	for _, f := range flat {
-		if f.n.typ != 0 || !r.Chance(20) {
+		if (f.n.typ != 0 && f.n.typ != 3 && f.n.typ != 4) || !r.Chance(20) {
 			continue
 		}
 		// sibling-level name that sorts after the source and is free
@@ -159,7 +160,7 @@ func c03AddHardlinks(r *Rng, root *[]*c03N) {
 		if dup {
 			continue
 		}
-		h := &c03N{name: name, typ: 5, target: f.path, perm: f.n.perm, uid: f.n.uid, gid: f.n.gid, mtime: f.n.mtime, data: f.n.data, xattrs: f.n.xattrs}
+		h := &c03N{name: name, typ: 5, ltyp: f.n.typ, rdev: f.n.rdev, target: f.path, perm: f.n.perm, uid: f.n.uid, gid: f.n.gid, mtime: f.n.mtime, data: f.n.data, xattrs: f.n.xattrs}
 		*kids = append(*kids, h)
 		sort.Slice(*kids, func(i, j int) bool { return (*kids)[i].name < (*kids)[j].name })
 	}
@@ -176,7 +177,11 @@ func c03GoMode(n *c03N) uint32 {
 	if n.perm&01000 != 0 {
 		m |= os.ModeSticky
 	}
-	switch n.typ {
+	typ := n.typ
+	if typ == 5 {
+		typ = n.ltyp // a further name of a fifo / device carries the type bits and the Linkname
+	}
+	switch typ {
 	case 1:
 		m |= os.ModeDir
 	case 2:
@@ -203,6 +208,9 @@ func c03StatOf(path string, n *c03N) *types.Stat {
 	case 5:
 		st.Size = int64(len(n.data))
 		st.Linkname = n.target
+		if n.ltyp == 4 {
+			st.Devmajor, st.Devminor = int64(n.rdev>>8&0xfff), int64(n.rdev&0xff)
+		}
 	}
 	if len(n.xattrs) > 0 {
 		st.Xattrs = map[string][]byte{}
@@ -349,7 +357,7 @@ func c03Mutate(r *Rng, kids []*c03N, depth int) []*c03N {
 				}
 			}
 			if c.typ == 5 {
-				c.typ = 0
+				c.typ = c.ltyp
 			}
 			if c.typ == 1 {
 				c.kids = c03Mutate(r, k.kids, depth+1)
@@ -389,9 +397,9 @@ func c03Items(src []*c03N, wanted func(string, bool) bool) []c03Item {
 		n := f.n
 		if n.typ == 5 {
 			// an honest walker names the first member of the group; if that one is gone the link is the file
-			if s, ok := present[n.target]; !ok || s.typ != 0 {
+			if s, ok := present[n.target]; !ok || s.typ != n.ltyp {
 				n = c03Clone(n)
-				n.typ = 0
+				n.typ = n.ltyp
 				n.same = false
 			}
 		}
@@ -588,6 +596,13 @@ func c03Corrupt(r *Rng, pk []Sx, dest []*c03N) ([]Sx, string) {
 		if r.Chance(20) {
 			h.Xattrs = map[string][]byte{"user.h": []byte("1")}
 		}
+		if r.Chance(30) { // a further name of a fifo / device; type bits that contradict each other
+			h.Mode |= Pick(r, []uint32{uint32(os.ModeNamedPipe), uint32(os.ModeDevice | os.ModeCharDevice), uint32(os.ModeDevice),
+				uint32(os.ModeDevice | os.ModeSymlink), uint32(os.ModeNamedPipe | os.ModeSymlink), uint32(os.ModeSocket)})
+			if os.FileMode(h.Mode)&os.ModeDevice != 0 {
+				h.Devmajor, h.Devminor = 1, 3
+			}
+		}
 		if r.Chance(50) {
 			pk[i] = c03StatPk(h)
 		} else {
@@ -656,6 +671,16 @@ func c03Corrupt(r *Rng, pk []Sx, dest []*c03N) ([]Sx, string) {
 			uint32(os.ModeDir | os.ModeNamedPipe | 0700)})
 		if os.FileMode(st.Mode)&os.ModeDevice != 0 {
 			st.Devmajor, st.Devminor = 1, 3
+		}
+		if r.Chance(35) { // ... together with a Linkname: an earlier entry of the stream, or somewhere else
+			var names []string
+			for _, j := range stats {
+				if j < i {
+					names = append(names, SxStat(pk[j].L[1]).Path)
+				}
+			}
+			names = append(names, Pick(r, c03OutLink))
+			st.Linkname = Pick(r, names)
 		}
 		pk[i] = c03StatPk(st)
 		return pk, "odd-mode"
